@@ -226,6 +226,11 @@ def run(harnesses, timeout_each=1500):
             for nm, r in seen.items():
                 if nm in failed_names:
                     r['status'] = 'FAILED'
+                # a harness whose ONLY failed checks are unwinding assertions ran out of its loop bound (a harmless change that adds an
+                # iteration does that): the bound is too small to decide, which is a tool limit (exit 2), never a violation
+                fcs = r['failed_checks']
+                if r['status'] == 'FAILED' and fcs and len(fcs) < 10 and all('unwinding assertion' in fc for fc in fcs):
+                    r['status'] = 'UNWIND-BOUND-TOO-SMALL'
                 if r['status'] == 'FAILED':
                     r['output_tail'] = out[-2500:]
                 if r['status'] == 'UNKNOWN' and complete and nm not in failed_names:
